@@ -86,7 +86,7 @@ TOTAL = {
     "Parser::parse_next": "winnow combinators report failure as Err; the one debug assertion (repeat without progress) is excluded by C07.R3 (every element consumes >= 4 bytes)",
     "Parser::value": "constructor", "Parser::map": "constructor", "Parser::void": "constructor", "Parser::verify": "constructor",
     "Parser::try_map": "constructor", "combinator::trace": "constructor", "combinator::repeat": "constructor", "combinator::separated_foldl1": "constructor",
-    "combinator::alt": "constructor", "token::take": "constructor", "combinator::preceded": "constructor", "combinator::terminated": "constructor",
+    "combinator::alt": "constructor", "token::take": "constructor", "token::literal": "constructor", "token::tag": "constructor", "combinator::preceded": "constructor", "combinator::terminated": "constructor",
     "binary::le_u32": "constructor", "binary::u32": "constructor", "Parser::by_ref": "constructor", "Parser::take": "constructor",
 }
 del TOTAL["Iterator::sum"]
